@@ -108,12 +108,20 @@ class Val:
 FRESH = Val()
 
 
+def _origin_key(desc: str) -> str:
+    """Two witness chains describe the same cause when their last two hops coincide (the write and the call that
+    handed the borrowed object to it)."""
+    hops = [h.strip() for h in desc.split("->")]
+    return " -> ".join(hops[-2:])
+
+
 @dataclass
 class Summary:
     effects: set = field(default_factory=set)  # {(region, field)}
     ret: Val = FRESH
     links: set = field(default_factory=set)  # {(holder region, held region)}
-    witness: dict = field(default_factory=dict)  # (region, field) -> description
+    witness: dict = field(default_factory=dict)  # (region, field) -> first description
+    witnesses: dict = field(default_factory=dict)  # (region, field) -> list of distinct descriptions (all origins, bounded)
 
     def same(self, o: "Summary") -> bool:
         return self.effects == o.effects and self.ret == o.ret and self.links == o.links
@@ -129,6 +137,7 @@ class EffectAnalysis:
         self.in_progress: set[tuple] = set()
         self.changed = False
         self._done_round: set = set()
+        self._final: set = set()
         self.dropped_brackets: set[str] = set()
         self._cur_links: set = set()
         self.n_analysed = 0
@@ -136,12 +145,16 @@ class EffectAnalysis:
     # --------------------------------------------------------------- public
     def summary(self, fn: FuncInfo, selfcls: Optional[ClassInfo] = None, consts: Optional[dict] = None) -> Summary:
         key = self._key(fn, selfcls, consts)
+        if key in self._final:
+            return self.summaries[key]
         for _ in range(10):
             self.changed = False
             self._done_round = set()
             self._compute(fn, selfcls, consts or {})
             if not self.changed:
                 break
+        # everything computed in the last (stable) round is a fixpoint and need not be recomputed
+        self._final |= self._done_round
         return self.summaries[key]
 
     def _key(self, fn: FuncInfo, selfcls: Optional[ClassInfo], consts: Optional[dict]) -> tuple:
@@ -151,7 +164,7 @@ class EffectAnalysis:
         key = self._key(fn, selfcls, consts)
         if key in self.in_progress:
             return self.summaries.setdefault(key, Summary())
-        if key in self.summaries and key in self._done_round:
+        if key in self.summaries and (key in self._done_round or key in self._final):
             return self.summaries[key]
         self.in_progress.add(key)
         self._done_round.add(key)
@@ -166,6 +179,12 @@ class EffectAnalysis:
             new.links |= old.links
             for k, v in old.witness.items():
                 new.witness.setdefault(k, v)
+            for k, vs in old.witnesses.items():
+                cur = new.witnesses.setdefault(k, [])
+                for v in vs:
+                    origin = _origin_key(v)
+                    if len(cur) < 8 and all(_origin_key(w) != origin for w in cur):
+                        cur.append(v)
         if old is None or not old.same(new):
             self.summaries[key] = new
             self.changed = True
@@ -246,9 +265,14 @@ class EffectAnalysis:
             for region, fld, why in effs:
                 if base_of(region) in drop:
                     continue
+                desc = f"{fn.qualname}:{cfg.nodes[nid].line}: {why}"
+                ws = summ.witnesses.setdefault((region, fld), [])
+                origin = _origin_key(desc)
+                if len(ws) < 8 and all(_origin_key(w) != origin for w in ws):
+                    ws.append(desc)
                 if (region, fld) not in summ.effects:
                     summ.effects.add((region, fld))
-                    summ.witness[(region, fld)] = f"{fn.qualname}:{cfg.nodes[nid].line}: {why}"
+                    summ.witness[(region, fld)] = desc
         return summ
 
     def _brackets(self, fn: FuncInfo, cfg: CFG, IN: dict) -> dict[int, set]:
@@ -539,7 +563,8 @@ class EffectAnalysis:
             if effs is not None:
                 for (region, fld) in s.effects:
                     for r in subst(region):
-                        effs.append((r, fld, f"call `{short(c, 60)}` -> {s.witness.get((region, fld), callee.qualname)}"))
+                        for w in (s.witnesses.get((region, fld)) or [s.witness.get((region, fld), callee.qualname)]):
+                            effs.append((r, fld, f"call `{short(c, 60)}` -> {w}"))
             if not is_ctor:
                 rb: frozenset = E
                 for region in s.ret.B:
